@@ -248,10 +248,26 @@ def gen_case(rng):
                 a, b = max(0, min(a, MAXTS)), max(0, min(b, MAXTS))
                 dop = {"op": "deletec", "a": a, "b": b, "sops": [], "eops": []}
                 phases = rng.choice([["e"], ["e"], ["s"], ["s", "e"], ["e", "e"]])
+                before_only = False
+                if len(sim.dom) >= 2 and rng.random() < 0.45:
+                    # several domains spanned, end strictly inside the last one, and the concurrent
+                    # commit lands BEFORE the start domain (every captured position shifts)
+                    i = rng.randrange(len(sim.dom) - 1)
+                    j = rng.randrange(i + 1, len(sim.dom))
+                    s0, e0 = sim.dom[i]
+                    s1, e1 = sim.dom[j]
+                    a = rng.choice([s0, s0 + 1, (s0 + e0) // 2])
+                    b = rng.choice([s1 + 1, (s1 + e1) // 2, max(s1, e1 - 1)])
+                    a, b = max(0, min(a, MAXTS)), max(0, min(b, MAXTS))
+                    dop["a"], dop["b"] = a, b
+                    before_only = True
+                    phases = rng.choice([["e"], ["e"], ["s"], ["s", "e"]])
                 pool = [0, 1, 2, 3, 6, 7, 8, 11, 13, 16, 17, 18, 22, 23, 26, 27, 28, 31, 33, 35, 41, 42, 45, 46, 48, 51,
                         52, 55, 58, 61, 65, 70]
                 for ph in phases:
                     free = [t for t in pool if not sim.inside(t)]
+                    if before_only:
+                        free = [t for t in free if t < dop["a"] and sim.next_start(t) <= dop["a"]] or free
                     if not free:
                         break
                     t = rng.choice(free)
